@@ -30,10 +30,13 @@ class RAM(MemoryType):
 
     def read(self, address, size):
         chunk = self.memory_array[address:address + size]
-        return chunk
+        # an access running past the end of the device sees zeros there
+        return chunk + bytes(size - len(chunk))
 
     def write(self, address, size, value):
-        self.memory_array[address:address + size] = value
+        # never grow the device: bytes past its end are dropped
+        end = min(address + size, self.size)
+        self.memory_array[address:end] = value[:max(end - address, 0)]
 
 
 MEMORY_TYPE_DICT = {
